@@ -139,6 +139,9 @@ def explore_cases(ctx, drv, interp):
         d1 = interp.run(small, {k: v[:1] for k, v in case.data.items()})
         d2 = interp.run(large, {k: v[:1] for k, v in case.data.items()})
         ctx.interp_runs += 2
+        if d1[0] != "ok" and d2[0] != "ok" and pl.interp_err_class(d1) == pl.interp_err_class(d2):
+            ctx.tag("both_serialisations_refused_alike")   # whether the runtime accepts the model at all is C01's subject
+            continue
         same = d1[0] == d2[0] == "ok" and all(np.array_equal(a[k], b[k], equal_nan=True) for sig in d1[1] for a, b in zip(d1[1][sig], d2[1][sig]) for k in a)
         if not same:
             ctx.fail(f"interpreter results differ between the two serialisations ({d1[0]}/{d2[0]})", replay, "interp-differs")
